@@ -90,6 +90,9 @@ P_C12(pre, e) ==
 Quiescent(e) == "quiescent" \in DOMAIN e.a /\ e.a.quiescent /\ e.st.pool = <<>>
 BetsOfRef(s, ref) == {b \in DOMAIN s.xb : s.xb[b].ref = ref}
 \* the strategy hash is known to this instance iff some order / strategy carries it: recorded by the driver
+StratOfKey(k) == LET i == CHOOSE j \in 1..Len(k) : SubSeq(k, j, j) = "|" /\ \A m \in 1..(j - 1) : SubSeq(k, m, m) # "|" IN SubSeq(k, 1, i - 1)
+\* markets that hold a bet of a strategy this instance runs
+KnownMarkets(s) == {s.xb[b].mid : b \in {x \in DOMAIN s.xb : s.xb[x].sref = "KNOWN" /\ ~s.xb[x].settled}}
 P_C11(pre, e) ==
     LET post == e.st IN
     /\ (Quiescent(e) =>
@@ -108,14 +111,20 @@ P_C11(pre, e) ==
                 /\ Ck("C11", "CompleteLeftLiveList", r.cplt => ~r.live, <<o, r.status>>)
          /\ Ck("C11", "TradesComplete", TradeStatusWrong(post) = {}, TradeStatusWrong(post))
          \* every bet of a known strategy is represented by exactly one local order; others by none
-         /\ \A b \in DOMAIN post.xb :
+         /\ \A b \in {x \in DOMAIN post.xb : ~post.xb[x].settled} :      \* (bets of a closed market have left the order stream)
               LET n == Cardinality({o \in DOMAIN post.ord : post.ord[o].inbl /\ post.ord[o].betid = b}) IN
               IF post.xb[b].sref = "KNOWN"
               THEN Ck("C11", "AdoptedExactlyOnce", n = 1, <<b, n, post.xb[b].ref>>)
               ELSE Ck("C11", "UnknownStrategyIgnored", n = 0, <<b, n>>))
+    \* an update for an unknown strategy is ignored WITHOUT EFFECT: processing an order-stream image registers no
+    \* market that holds only such bets
+    /\ (e.ev \in {"proc", "restart"} =>
+          Ck("C11", "UnknownStrategyNoEffect",
+             (DOMAIN post.mkt \ (IF e.ev = "restart" THEN {} ELSE DOMAIN pre.mkt)) \subseteq KnownMarkets(post),
+             <<DOMAIN post.mkt, KnownMarkets(post)>>))
     \* after a restart the adopted orders count towards exposure and live-trade accounting as before
     /\ (e.ev = "restart" =>
-          \A k \in DOMAIN e.a.pre :
+          \A k \in {x \in DOMAIN e.a.pre : \E i \in DOMAIN e.a.running : StratOfKey(x) = e.a.running[i]} :   \* strategies the new instance runs
              Ck("C11", "AdoptedCounts",
                 \* (a runner that carried nothing before the crash - a market merely looked at - need not exist afterwards)
                 \* (live trades are compared on what the new instance can find: trades with a live bet at the exchange;
@@ -152,7 +161,11 @@ P_C03L(pre, e) ==
                 <<e.reqs[i].kind, e.reqs[i].o, e.reqs[i].r>>)
     \* at most one operation in flight per order
     /\ Ck("C03", "OneInFlight",
-          \A o \in DOMAIN e.st.ord : Cardinality({i \in DOMAIN e.st.pool : o \in SeqToSet(e.st.pool[i].orders)}) <= 1, "")
+          \* (the response to an asynchronous placement that the order stream has already picked up carries no
+          \*  operation of its own any more)
+          \A o \in DOMAIN e.st.ord :
+             Cardinality({i \in DOMAIN e.st.pool : o \in SeqToSet(e.st.pool[i].orders)
+                                                    /\ ~(e.st.pool[i].kind = "PLACE" /\ e.st.ord[o].async /\ e.st.ord[o].bet)}) <= 1, "")
     \* while a request for an order is outstanding (queued, on the wire or waiting for its retry) the order
     \* shows the in-flight status of that request: the order stream moves PENDING (with a bet id) and
     \* EXECUTABLE orders only, and the execution thread resets orders only when it gives the request up
